@@ -232,6 +232,11 @@ class Controller:
             c = ["uncanon", repr(e)]
         info = self.jobs[job.id]
         info["settled"] = (kind, repr(c))
+        info["settled_obj"] = value
+        try:
+            info["prov"] = job.recording_provenance()
+        except Exception:
+            info["prov"] = True
         info["status_was_cached"] = job.was_cached
         info["call_hash"] = job.call_hash
         info["eval_hash"] = job.eval_hash
@@ -279,7 +284,8 @@ class Controller:
             for r, c in job.get_limits().items():
                 self.held[r] -= c
             self.events.append(("R", key, ok))
-            self.reports.append({"n": key, "ok": ok})
+            self.reports.append({"n": key, "ok": ok, "error": None if ok else result, "task": job.task.fullname,
+                                 "args": repr(job.args), "id": job.id})
             if ok:
                 self.scheduler.done_job(job, result)
             else:
